@@ -68,9 +68,13 @@ func verifCatalogueChange(step int) []byte {
 		// dataset ids are server-generated and unique, so one id always denotes one
 		// dataset: its immutable attributes are a function of the id
 		pc := 1 + ds%2
-		meta := &pb.Dataset{Id: verifDatasetId(ds).Bytes(), Dimension: uint32(1 + ds), PartitionCount: uint32(pc), ReplicationFactor: 1, Space: pb.Space(ds % 3)}
+		meta := &pb.Dataset{Id: verifDatasetId(ds).Bytes(), Dimension: uint32(1 + ds), PartitionCount: uint32(pc), ReplicationFactor: uint32(verifrt.Bound("replicas", 1)), Space: pb.Space(ds % 3)}
 		for p := 0; p < pc; p++ {
-			meta.Partitions = append(meta.Partitions, &pb.Partition{Id: verifPartitionId(ds, p).Bytes(), NodeIds: []uint64{7}})
+			nodeIds := []uint64{7}
+			for r := 1; r < verifrt.Bound("replicas", 1); r++ {
+				nodeIds = append(nodeIds, uint64(20+r))
+			}
+			meta.Partitions = append(meta.Partitions, &pb.Partition{Id: verifPartitionId(ds, p).Bytes(), NodeIds: nodeIds})
 		}
 		data, err := proto.Marshal(meta)
 		if err != nil {
@@ -84,6 +88,12 @@ func verifCatalogueChange(step int) []byte {
 		if verifrt.Choose("nodechange", 2) == 1 {
 			nc.Type = pb.DatasetPartitionNodesChangeType_DatasetPartitionNodesChangeRemoveNode
 			nc.NodeId = 7
+			// with several initial replicas any of them may be the one that leaves
+			if r := verifrt.Bound("replicas", 1); r > 1 {
+				if k := verifrt.Choose("which-replica-leaves", r); k > 0 {
+					nc.NodeId = uint64(20 + k)
+				}
+			}
 		}
 		data, err := proto.Marshal(nc)
 		if err != nil {
